@@ -96,6 +96,14 @@ def check(ctx, R):
                     if n in falses:
                         continue
                     is_result = n is mgr_nodes[0] and _tuple_pos(n.ast, selfn + "." + flag) == 0
+                    if not is_result and g.dominates([mgr_nodes[0]], n):
+                        # through a temporary: the value stored is element 0 of the manager's result
+                        from ..engine import terms as _terms
+                        T_ = _terms(ctx)
+                        mcall = [c for c in node_calls(mgr_nodes[0]) if ctx.cg.site(c) is not None and roles.io_connect in ctx.cg.site(c).callees][0]
+                        for d in df.node_defs.get(n, []):
+                            if d.var == selfn + "." + flag and d.kind == "assign":
+                                is_result = T_._def_term(f, d, d.var, {}, 0, n) == ("proj", T_.term(f, mgr_nodes[0], mcall), 0)
                     R.check(is_result, "AVAIL-connect", "%s|%s" % (f.qualname, norm_stmt(st)),
                             "availability is taken from the manager's result (first element)",
                             "availability is set from something other than the first element of the manager's connect() result", f.loc(st))
